@@ -6,10 +6,11 @@ fixed-point relation on re-parsing; printer prints the stored string unquoted.
 """
 from __future__ import annotations
 
+import copy
 import hashlib
 import json
 
-from .. import core
+from .. import core, vocab
 from .. import exprmodel as X
 
 RULE = ("intended expression trees (exhaustive operator structures up to the size bound, random beyond) over all operator "
@@ -20,9 +21,9 @@ RULE = ("intended expression trees (exhaustive operator structures up to the siz
 EVAL_KEY = "evaluations"
 DISTINCT_KEY = "sources"
 NSHARDS = {"quick": 8, "thorough": 16}
-FLOORS = {"quick": {"trees_judged": 25000, "fixed_point_checks": 25000, "distinct:adjacencies": 80, "verbatim_checks": 1500},
+FLOORS = {"quick": {"trees_judged": 25000, "fixed_point_checks": 25000, "distinct:adjacencies": 80, "verbatim_checks": 1500, "printed_in_context": 2500},
           "thorough": {"trees_judged": 400000, "fixed_point_checks": 400000, "distinct:adjacencies": 90,
-                       "verbatim_checks": 30000}}
+                       "verbatim_checks": 30000, "printed_in_context": 30000}}
 ASSUMPTIONS = ["mf/exprmodel.py (tokenizer + precedence parser, 150 lines) restates MapServer's precedence as given in the property",
                "numeric operands are compared by value (1.50 and 1.5 are the same operand)"]
 DOMAIN = ["binary operators are written with spaces on both sides (the lexer's signed-number and unquoted-string terminals make "
@@ -110,6 +111,29 @@ def judge_tree(ctx, eng, tree, r, host_i, redundant, use_public=False):
     # (a literal may hold a line break: then the statement runs over several output lines)
     if (want_stmt not in lines) if "\n" not in stored else (("\n    " + want_stmt + "\n") not in out):
         res.violation("stored-expression-not-printed-verbatim-unquoted", case, out, f"{key.upper()} {stored}")
+    if res.counters["trees_judged"] % 5 == 0 and "\n" not in stored:
+        # the same object printed by ONE printer call together with objects of other types that carry the same keyword as plain text
+        # (LAYER GROUP "g" next to CLUSTER GROUP (...)), before and after it: what is written for the expression does not depend on it
+        others = []
+        for o in vocab.object_types():
+            if o != typ and key in vocab.props(o) and "string" in vocab.props(o)[key].kinds():
+                od = {"__type__": o}
+                for req in vocab.required(o):
+                    od[req] = {"name": "ctx", "type": "point"}.get(req, "x")
+                od[key] = "plain text"
+                others.append(od)
+        if others:
+            res.count("printed_in_context")
+            for roots in (others + [d], [d] + others):
+                try:
+                    out = mappyfile.dumps(copy.deepcopy(roots))  # (a fresh printer per call: nothing carried over from earlier prints)
+                except Exception as ex:
+                    res.violation("context-document-does-not-print", dict(case, context=[o["__type__"] for o in others]), f"{type(ex).__name__}: {str(ex)[:200]}", None)
+                    break
+                if want_stmt not in [l.strip() for l in out.split("\n")]:
+                    res.violation("stored-expression-not-printed-verbatim-unquoted", dict(case, context=[o["__type__"] for o in roots]), out[:1500],
+                                  f"{key.upper()} {stored}")
+                    break
     if len(res.samples) < 3 and nops >= 3:
         res.sample({"host": f"{typ}.{key}", "source": src, "stored": stored})
 
